@@ -42,7 +42,8 @@ Inductive outcome :=
 | ORejected    (* SimulateScheduling: a candidate is already deleting (returns before GetPendingPods) *)
 | OErrEarly    (* listing the pending pods failed *)
 | OErrLate     (* any later error, including a cancelled context *)
-| OEmpty.      (* nothing to schedule *)
+| OEmpty       (* nothing to schedule *)
+| ONoPools.    (* Provisioner.Schedule: no usable NodePool (ErrNodePoolsNotFound): every pod is recorded as failed *)
 
 (* ------------------------------------------------------------------ deep-copy facts *)
 
@@ -317,7 +318,11 @@ Definition simulate_all (e : env) (h : heap) (calls : list sim_call) : heap :=
 Definition provision (e : env) (h : heap) (o : outcome) (rejected : list Z) (decisions : list sop)
            (marked : list Z) (nominated : list (nat * Z)) : heap :=
   run e h (map PMark (pending_marks o rejected) ++ sched_ops decisions ++
-           match o with OOk => map PMark marked ++ map (fun p => PNominate (fst p) (snd p)) nominated | _ => [] end).
+           match o with
+           | OOk => map PMark marked ++ map (fun p => PNominate (fst p) (snd p)) nominated
+           | ONoPools => map PMark marked
+           | _ => []
+           end).
 
 (* ------------------------------------------------------------------ nomination and bookkeeping, as functions *)
 
@@ -365,6 +370,7 @@ Definition marks_of (k : opkind) (o : outcome) (rejected : list Z) (result : opt
   let pre := match pending_marks o rejected with [] => [] | r => [rejected_mark r] end in
   match k, o, result with
   | KProv, OOk, Some m => pre ++ [m]
+  | KProv, ONoPools, Some m => pre ++ [m]
   | _, _, _ => pre
   end.
 
